@@ -1521,6 +1521,18 @@ class Controller:
             return None
         self._send_hci_command_status(hci.HCI_ErrorCode.SUCCESS, command.op_code)
 
+        try:
+            self._accept_classic_connection(command, connection)
+        except InvalidArgumentError:
+            # The initiator has left the link: conclude the procedure
+            self.on_classic_connection_complete(
+                command.bd_addr, hci.HCI_ErrorCode.CONNECTION_ACCEPT_TIMEOUT_ERROR
+            )
+        return None
+
+    def _accept_classic_connection(
+        self, command: hci.HCI_Accept_Connection_Request_Command, connection: Connection
+    ) -> None:
         if command.role == hci.Role.CENTRAL:
             # Perform role switching before accept.
             future = self.send_lmp_packet(command.bd_addr, lmp.LmpSwitchReq())
@@ -1552,7 +1564,6 @@ class Controller:
             self.on_classic_connection_complete(
                 command.bd_addr, hci.HCI_ErrorCode.SUCCESS
             )
-        return None
 
     def on_hci_reject_connection_request_command(
         self, command: hci.HCI_Reject_Connection_Request_Command
